@@ -259,7 +259,7 @@ func runC20(s *Sim) {
 		ai := wl.Draw(nAct)
 		a := s.Actors[ai]
 		var name string
-		switch weighted(wl, []int{7, 5, 2, 2, 2, 1, 1}) {
+		switch weighted(wl, []int{7, 5, 2, 2, 2, 1, 1, 1}) {
 		case 0: // node-point write, 1..2 identities, unique values, globally distinct timestamps
 			n := nodes[wl.Draw(len(nodes))]
 			cnt := 1 + wl.Draw(2)
@@ -348,6 +348,16 @@ func runC20(s *Sim) {
 			a.Add(name, func() {
 				if err := client.AdminStoreVerify(a.Nc); err != nil && !errors.Is(err, nats.ErrTimeout) {
 					s.Fail("C20", "verify-error", "admin.storeVerify answered %v while writes were going on", err)
+				}
+			})
+		case 7: // a write the store must refuse (n1 under its own descendant n3): error paths run concurrently with everything else
+			clock += int64(1 + wl.Draw(50))
+			t := time.Unix(0, clock)
+			name = "refused: n1 under its descendant n3"
+			a.Add(name, func() {
+				err := client.SendEdgePoints(a.Nc, "n1", "n3", data.Points{{Type: data.PointTypeTombstone, Time: t}, {Type: data.PointTypeNodeType, Text: "variable", Time: t}}, true)
+				if err == nil {
+					s.Fail("C20", "write-error", "%s was acknowledged without error", name)
 				}
 			})
 		case 6: // maintenance request (its own subscription, so it overlaps verification, reads and writes)
@@ -469,6 +479,25 @@ func runC20(s *Sim) {
 		return
 	}
 	tr.CheckState(true)
+	if s.Failed() {
+		return
+	}
+	// ... and the reopened store takes writes
+	s.Call(func() {
+		nc2, err := nats.Connect(in.URL(), nats.Name("after-reopen"))
+		if err != nil {
+			s.Fail("C20", "harness", "connect after reopen: %v", err)
+			return
+		}
+		defer nc2.Close()
+		if err := client.SendNodePoint(nc2, "n2", data.Point{Type: "probe", Value: 2, Time: time.Unix(0, clock+10), Origin: "setup"}, true); err != nil {
+			s.Fail("C20", "reopen", "after Stop and a new start on the same store file a node-point write was answered: %v", err)
+			return
+		}
+		if err := client.SendEdgePoint(nc2, "n2", root, data.Point{Type: "probe", Value: 2, Time: time.Unix(0, clock+11), Origin: "setup"}, true); err != nil {
+			s.Fail("C20", "reopen", "after Stop and a new start on the same store file an edge-point write was answered: %v", err)
+		}
+	})
 	s.Stats.NonTrivial = len(b.sites) > 0
 }
 
